@@ -763,6 +763,24 @@ def insert_rule(ctx, o):
                 o.undecided(f, c, anchor, "anchor expression not recognised")
             continue
         defs = fl.reaching(anchor.id, cn)
+        if defs and all(d.kind == 'param' for d in defs):
+            # the anchor is a task handed in by the caller: move() rejects it when it is not a member (or is the task itself) - that
+            # must have been established before the attach
+            member = any(facts.cond_is(a, q, f"{anchor.id} in self._list", True) is not None or
+                         facts.cond_is(a, q, f"{anchor.id} in self", True) is not None
+                         for a, q in facts.node_conditions(prog, f, c, ctx.typer, expand=True))
+            for g_ in facts.guards_of(prog, f, ctx.typer, inline=False):
+                if all(cfg.dominates(g_.cfg_node, a[0]) or not cfg.can_reach(a[0], g_.cfg_node) for a in before_c) and any(
+                        facts.cond_is(a, q, f"{anchor.id} in self._list", False) is not None
+                        for t_, p_ in g_.conds for a, q in facts.split_conj(t_, p_)):
+                    member = True
+            if member:
+                o.site(f, c, f"caller-supplied anchor `{anchor.id}` is checked to be a member before the attach")
+            else:
+                o.refute(f, c, c, f"move() is called with the caller-supplied task `{anchor.id}` as anchor after the task was attached, and nothing "
+                                  f"before the attach establishes that `{anchor.id}` is in this list: move() rejects it ('Before' not found) when "
+                                  f"the task is already re-parented")
+            continue
         if not defs or any(d.kind != 'assign' or d.node is None for d in defs):
             o.undecided(f, c, anchor, "anchor is not a local with plain assignments")
             continue
